@@ -33,9 +33,11 @@ let () = each_line (fun l ->
     if not (nfa_same a ia && nfa_same b ib) then fails := "operand_changed" :: !fails;
     (* drift: the functional model of the three selections (sanitize, then decide) *)
     let drift = List.filter (fun v -> wincl_model v a b <> truth) [Antichains; CongrDepth; CongrBreadth] in
+    (* drift: the algorithmic model of the antichain selection (worklist, antichain, memo tables) *)
+    let acm = ac_incl_model a b in
     let fails = List.rev !fails in
     (if fails = [] then "OK" else "FAIL " ^ String.concat "," fails)
-    ^ (if drift = [] then "" else " DRIFT model")
+    ^ (if drift = [] && acm = truth then "" else " DRIFT model")
     ^ (if truth then " incl" else " notincl")
     ^ (if wis_empty a then " Aempty" else " Anonempty")
     ^ (if nfa_same a (nuseless a) && nfa_same b (nuseless b) then "" else " dead")
